@@ -4,6 +4,7 @@ import (
 	"fmt"
 	"strings"
 	"testing"
+	"time"
 
 	mod "github.com/craterdog/go-collection-framework/v4"
 	cdc "github.com/craterdog/go-collection-framework/v4/cdcn"
@@ -307,4 +308,41 @@ func TestC10(t *testing.T) {
 	core.Rapid(r, core.Check[typedCase]{Name: "typed-fixpoint", Gen: genTyped, Exec: execTyped}, r.N(600, 5000))
 	core.Rapid(r, core.Check[histCase]{Name: "format-histories", Gen: genHist, Exec: execHist}, r.N(300, 3000))
 	core.Rapid(r, core.Check[deepCase]{Name: "deep-and-cyclic", Gen: genDeep, Exec: execDeep}, r.N(300, 3000))
+	// one very long leaf (a document body, an attachment): a string of tens of thousands of characters as a value
+	// and as a key, plain, with escapes, with two-byte letters
+	core.DFS(r, core.Check[longLeafCase]{Name: "long-leaves", Gen: func(s core.Source) longLeafCase {
+		return longLeafCase{Length: []int{1000, 65535, 65536, 70000, 200000}[s.Choose(5, "length")], Alphabet: s.Choose(3, "alphabet"), Where: core.Pick(s, []string{"List", "Catalog-value", "Catalog-key", "Set"}, "where")}
+	}, Exec: execLongLeaf, HangLimit: 300 * time.Second}, 0)
+}
+
+type longLeafCase struct {
+	Length   int    `json:"length"`
+	Alphabet int    `json:"alphabet"` // 0 plain, 1 with quotes, backslashes and newlines, 2 two-byte letters
+	Where    string `json:"where"`
+}
+
+func execLongLeaf(c longLeafCase, s core.Source) core.Result {
+	unit := []string{"abcdefgh", "a\"b\\c\nd", "aéüb"}[c.Alphabet]
+	var b strings.Builder
+	for b.Len() < c.Length {
+		b.WriteString(unit)
+	}
+	long := model.VStr(b.String()[:c.Length/len(unit)*len(unit)])
+	var v model.Val
+	switch c.Where {
+	case "List":
+		v = model.VColl("List", model.VInt(1), long, model.VInt(2))
+	case "Set":
+		v = model.VColl("Set", long, model.VStr("b"))
+	case "Catalog-value":
+		v = model.VAssoc("Catalog", model.Pair{Key: model.VStr("body"), Value: long}, model.Pair{Key: model.VStr("n"), Value: model.VInt(1)})
+	default:
+		v = model.VAssoc("Catalog", model.Pair{Key: long, Value: model.VInt(1)}, model.Pair{Key: model.VStr("n"), Value: model.VInt(2)})
+	}
+	res := execRoundTrip(rtCase{V: v, Classes: []string{"long-leaf-" + c.Where}}, s)
+	if res.Violation != nil && len(res.Violation.Message) > 600 {
+		res.Violation.Message = res.Violation.Message[:300] + " ... " + res.Violation.Message[len(res.Violation.Message)-250:]
+	}
+	res.NonTrivial = true
+	return res
 }
